@@ -354,6 +354,9 @@ func recoverKeyFromSignature(curve *KoblitzCurve, sig *Signature, msg []byte,
 	// TODO: this would be faster if we did a mult and add in one
 	// step to prevent the jacobian conversion back and forth.
 	Qx, Qy := curve.Add(sRx, sRy, minuseGx, minuseGy)
+	if Qx.Sign() == 0 && Qy.Sign() == 0 {
+		return nil, errors.New("recovered public key is the point at infinity")
+	}
 
 	return &PublicKey{
 		Curve: curve,
